@@ -559,6 +559,24 @@ Fixpoint hc_total (lrs : list lr) (addrs : list Z) (acc : Z) : Z :=
   | _, _ => acc
   end.
 
+(* ============================== the alignment of a live range ============================== *)
+(* live_range.LiveRange: __init__(tens, alignment) stores the first request, set_alignment(alignment) keeps the
+   larger of the stored and the new one, get_alignment() returns it.  LiveRangeGraph.get_or_create_range(tens,
+   alignment): the first range whose tensor is equivalent to tens gets set_alignment(alignment); otherwise a new
+   range is appended.  A request is (equivalence id of the tensor, alignment). *)
+Definition set_alignment (current alignment : Z) : Z := Z.max current alignment.
+Definition range_alignment (first : Z) (later : list Z) : Z := fold_left set_alignment later first.
+
+Fixpoint get_or_create_range (ranges : list (Z * Z)) (key alignment : Z) : list (Z * Z) :=
+  match ranges with
+  | [] => [(key, alignment)]
+  | (k, a) :: rest => if k =? key then (k, set_alignment a alignment) :: rest
+                      else (k, a) :: get_or_create_range rest key alignment
+  end.
+(* (equivalence id, get_alignment()) of every range, in creation order *)
+Definition range_alignments (requests : list (Z * Z)) : list (Z * Z) :=
+  fold_left (fun rs q => get_or_create_range rs (fst q) (snd q)) requests [].
+
 (* ============================== the dispatcher ============================== *)
 (* tensor_allocation.allocate(..., tensor_allocator, cpu_tensor_alignment, hillclimb_max_iterations) on a
    prepared live-range graph with one tensor per range and no tensors declared equivalent: LinearAlloc is
